@@ -66,7 +66,7 @@ def check_commit(cfg, w, rep, lf):
         t = b.term
         if t.k != "switch" or t.discr.place is None:
             continue
-        for o in idx.resolve_place(t.discr.place, IDENT):
+        for o in prog.resolve_pl(body, t.discr.place, IDENT):
             # `x.is_none()` / `x.is_some()` on the result of matches()
             if o.kind == "call" and o.callee is not None and o.callee.path in (
                     "std::option::Option::<T>::is_none", "std::option::Option::<T>::is_some"):
@@ -91,7 +91,7 @@ def check_commit(cfg, w, rep, lf):
         t = b.term
         if t.k != "switch" or t.discr.place is None:
             continue
-        for o in idx.resolve_place(t.discr.place, IDENT):
+        for o in prog.resolve_pl(body, t.discr.place, IDENT):
             if o.kind != "discr":
                 continue
             pl = o.info.place
@@ -157,7 +157,7 @@ def check_commit(cfg, w, rep, lf):
         t = b.term
         if t.k != "switch" or t.discr.place is None or t.j.get("discr_ty") != "bool":
             continue
-        for o in idx.resolve_place(t.discr.place, IDENT):
+        for o in prog.resolve_pl(body, t.discr.place, IDENT):
             if o.kind != "binop":
                 continue
             op = o.info.j["op"]
